@@ -41,6 +41,11 @@ def _int_new(cls, value=0):
 
 
 sym_int.__new__ = _int_new
+try:        # numpy accepts any object with a .dtype attribute as a dtype: arr.astype(int) keeps working under the shadow
+    import numpy as _np
+    sym_int.dtype = _np.dtype('int64')
+except Exception:
+    pass
 
 
 def sym_float(x=0.0):
@@ -143,6 +148,10 @@ def sym_range(*a):
 
 
 UNSHADOW.update({sym_int: int, sym_float: float})
+try:
+    sym_float.dtype = _np.dtype('float64')
+except Exception:
+    pass
 
 COMMON = dict(len=sym_len, int=sym_int, float=sym_float, isinstance=sym_isinstance, min=sym_min, max=sym_max,
               sum=sym_sum, print=sym_print, all=sym_all, any=sym_any, range=sym_range)
